@@ -355,7 +355,9 @@ def linear_in_state_program(rng, **kw):
     tempts an implementation to cache it.  Sensors are linear or bilinear in the states."""
     d = _program(rng, integrator_bias=0.0, **kw)
     st, ctl, cal = d["state"], d["control"], d["calibration"]
-    coef_leaves = [d["dt"]] + ctl + cal
+    # half of these programs keep the controls out of the coefficients: the Jacobian then depends on dt (and
+    # calibration) only
+    coef_leaves = [d["dt"]] + cal + (ctl if rng.random() < 0.5 else [])
 
     def coef():
         c = gen_expr(rng, coef_leaves, 1)
